@@ -400,6 +400,24 @@ func init() {
 			storeCell(reg.State, BV(2, 8), And(cc.c.g, ok))
 			return ok, true
 		}}
+	extraIntrinsics["verifPendingAfterFuncs"] = func(cc *CallCtx) bool {
+		n := BV(0, 64)
+		for _, r := range cc.e.afters {
+			n = Add(n, Ite(Eq(termOf(r.State), BV(0, 8)), BV(1, 64), BV(0, 64)))
+		}
+		cc.finish(n)
+		return true
+	}
+	extraIntrinsics["verifCondWaiters"] = func(cc *CallCtx) bool {
+		cd := cc.recvCell(0)
+		if cd == nil {
+			return false
+		}
+		w := termOf(condWaiters(cd))
+		cc.e.foot.read(cd.Obj, cc.c.g)
+		cc.finish(Ite(Eq(w, BV(0, 32)), BV(0, 64), BV(1, 64)))
+		return true
+	}
 	extraIntrinsics["verifLastRandN"] = func(cc *CallCtx) bool { cc.finish(restrictTerm(cc.e.lastRandN, cc.c.g)); return true }
 	extraIntrinsics["verifLastRand"] = func(cc *CallCtx) bool { cc.finish(restrictTerm(cc.e.lastRandR, cc.c.g)); return true }
 	extraIntrinsics["verifAwaitAfterFunc"] = func(cc *CallCtx) bool {
